@@ -11,9 +11,57 @@ import (
 	"golang.org/x/tools/go/ssa"
 )
 
+// finfo numbers the values of a function once so that frames can use slices instead of maps.
+type finfo struct {
+	idx map[ssa.Value]int
+	n   int
+}
+
+var finfos = map[*ssa.Function]*finfo{}
+
+func infoOf(fn *ssa.Function) *finfo {
+	if fi, ok := finfos[fn]; ok {
+		return fi
+	}
+	fi := &finfo{idx: map[ssa.Value]int{}}
+	add := func(v ssa.Value) {
+		if _, ok := fi.idx[v]; !ok {
+			fi.idx[v] = fi.n
+			fi.n++
+		}
+	}
+	for _, p := range fn.Params {
+		add(p)
+	}
+	for _, p := range fn.FreeVars {
+		add(p)
+	}
+	for _, b := range fn.Blocks {
+		for _, in := range b.Instrs {
+			if v, ok := in.(ssa.Value); ok {
+				add(v)
+			}
+		}
+	}
+	finfos[fn] = fi
+	return fi
+}
+
+type envT struct {
+	fi   *finfo
+	vals []Value
+	set  []bool
+}
+
+func (e *envT) put(v ssa.Value, x Value) {
+	i := e.fi.idx[v]
+	e.vals[i] = x
+	e.set[i] = true
+}
+
 type frame struct {
 	fn     *ssa.Function
-	env    map[ssa.Value]Value
+	env    envT
 	locals []Value
 	defers []func()
 	prev   *ssa.BasicBlock
@@ -161,8 +209,8 @@ func (m *Machine) get(fr *frame, v ssa.Value) Value {
 	case *ssa.Builtin:
 		return x
 	}
-	if r, ok := fr.env[v]; ok {
-		return r
+	if i, ok := fr.env.fi.idx[v]; ok && fr.env.set[i] {
+		return fr.env.vals[i]
 	}
 	panic(fmt.Sprintf("get: no value for %s (%T) in %s", v.Name(), v, fr.fn))
 }
@@ -239,12 +287,13 @@ func (m *Machine) callClosure(caller *frame, c *Closure, args []Value, pos token
 		panic(&Inconclusive{"recursion depth bound exceeded in " + fn.String()})
 	}
 	defer func() { m.depth-- }()
-	fr := &frame{fn: fn, env: map[ssa.Value]Value{}, caller: caller}
+	fi := infoOf(fn)
+	fr := &frame{fn: fn, env: envT{fi: fi, vals: make([]Value, fi.n), set: make([]bool, fi.n)}, caller: caller}
 	for i, p := range fn.Params {
-		fr.env[p] = args[i]
+		fr.env.put(p, args[i])
 	}
 	for i, fv := range fn.FreeVars {
-		fr.env[fv] = c.env[i]
+		fr.env.put(fv, c.env[i])
 	}
 	fr.block = fn.Blocks[0]
 	m.curFn = fname
@@ -292,7 +341,7 @@ func (m *Machine) runBlockFrom(fr *frame, skipPhis int) {
 	}
 	if skipPhis < 0 {
 		for i := 0; i < nphi; i++ {
-			fr.env[b.Instrs[i].(*ssa.Phi)] = phiVals[i]
+			fr.env.put(b.Instrs[i].(*ssa.Phi), phiVals[i])
 		}
 	}
 	for _, in := range b.Instrs[nphi:] {
@@ -369,22 +418,22 @@ func (m *Machine) instr(fr *frame, in ssa.Instruction) {
 	case *ssa.Alloc:
 		v := zero(x.Type().(*types.Pointer).Elem())
 		if bo, ok := v.(*ByteObj); ok {
-			fr.env[x] = BPtr{obj: bo, idx: nil}
+			fr.env.put(x, BPtr{obj: bo, idx: nil})
 			return
 		}
-		fr.env[x] = &v
+		fr.env.put(x, &v)
 	case *ssa.UnOp:
-		fr.env[x] = m.unop(fr, x)
+		fr.env.put(x, m.unop(fr, x))
 	case *ssa.BinOp:
-		fr.env[x] = m.binop(x.Op, x.X.Type(), m.get(fr, x.X), m.get(fr, x.Y), x.Pos())
+		fr.env.put(x, m.binop(x.Op, x.X.Type(), m.get(fr, x.X), m.get(fr, x.Y), x.Pos()))
 	case *ssa.Call:
-		fr.env[x] = m.doCall(fr, &x.Call, x.Pos())
+		fr.env.put(x, m.doCall(fr, &x.Call, x.Pos()))
 	case *ssa.Defer:
 		call := x.Call
 		fnv, args := m.prepareCall(fr, &call, x.Pos())
 		fr.defers = append(fr.defers, func() { m.invoke(fr, fnv, args, x.Pos()) })
 	case *ssa.Extract:
-		fr.env[x] = m.get(fr, x.Tuple).(Tuple)[x.Index]
+		fr.env.put(x, m.get(fr, x.Tuple).(Tuple)[x.Index])
 	case *ssa.Store:
 		m.store(m.get(fr, x.Addr), m.get(fr, x.Val), x.Pos())
 	case *ssa.FieldAddr:
@@ -394,18 +443,18 @@ func (m *Machine) instr(fr *frame, in ssa.Instruction) {
 		}
 		s := (*p).(Struct)
 		if bo, ok := s[x.Field].(*ByteObj); ok {
-			fr.env[x] = BPtr{obj: bo}
+			fr.env.put(x, BPtr{obj: bo})
 			return
 		}
-		fr.env[x] = &s[x.Field]
+		fr.env.put(x, &s[x.Field])
 	case *ssa.Field:
-		fr.env[x] = m.get(fr, x.X).(Struct)[x.Field]
+		fr.env.put(x, m.get(fr, x.X).(Struct)[x.Field])
 	case *ssa.IndexAddr:
-		fr.env[x] = m.indexAddr(fr, x)
+		fr.env.put(x, m.indexAddr(fr, x))
 	case *ssa.Index:
-		fr.env[x] = m.index(fr, x)
+		fr.env.put(x, m.index(fr, x))
 	case *ssa.Slice:
-		fr.env[x] = m.slice(fr, x)
+		fr.env.put(x, m.slice(fr, x))
 	case *ssa.MakeSlice:
 		n := m.get(fr, x.Len).(*Term)
 		c := m.get(fr, x.Cap).(*Term)
@@ -428,7 +477,7 @@ func (m *Machine) instr(fr *frame, in ssa.Instruction) {
 		m.noteAlloc(c, x.Pos())
 		if isByte(et) {
 			m.objCount++
-			fr.env[x] = BSlice{&ByteObj{arr: ArrConst(0), size: c, id: m.objCount}, i64_0, n, c}
+			fr.env.put(x, BSlice{&ByteObj{arr: ArrConst(0), size: c, id: m.objCount}, i64_0, n, c})
 			return
 		}
 		cn := m.ex.Concretize(c, 1<<20, "makeslice cap")
@@ -437,30 +486,30 @@ func (m *Machine) instr(fr *frame, in ssa.Instruction) {
 		for i := range d {
 			d[i] = zero(et)
 		}
-		fr.env[x] = VSlice{data: d}
+		fr.env.put(x, VSlice{data: d})
 	case *ssa.MakeInterface:
-		fr.env[x] = Iface{t: x.X.Type(), v: m.get(fr, x.X)}
+		fr.env.put(x, Iface{t: x.X.Type(), v: m.get(fr, x.X)})
 	case *ssa.ChangeInterface:
-		fr.env[x] = m.get(fr, x.X)
+		fr.env.put(x, m.get(fr, x.X))
 	case *ssa.ChangeType:
-		fr.env[x] = m.get(fr, x.X)
+		fr.env.put(x, m.get(fr, x.X))
 	case *ssa.Convert:
-		fr.env[x] = m.convert(x.X.Type(), x.Type(), m.get(fr, x.X))
+		fr.env.put(x, m.convert(x.X.Type(), x.Type(), m.get(fr, x.X)))
 	case *ssa.MakeClosure:
 		env := make([]Value, len(x.Bindings))
 		for i, b := range x.Bindings {
 			env[i] = m.get(fr, b)
 		}
-		fr.env[x] = &Closure{fn: x.Fn.(*ssa.Function), env: env}
+		fr.env.put(x, &Closure{fn: x.Fn.(*ssa.Function), env: env})
 	case *ssa.MakeMap:
-		fr.env[x] = &Map{kt: x.Type().Underlying().(*types.Map).Key()}
+		fr.env.put(x, &Map{kt: x.Type().Underlying().(*types.Map).Key()})
 	case *ssa.MapUpdate:
 		mp := m.get(fr, x.Map).(*Map)
 		m.mapSet(mp, m.get(fr, x.Key), m.get(fr, x.Value))
 	case *ssa.Lookup:
-		fr.env[x] = m.lookup(fr, x)
+		fr.env.put(x, m.lookup(fr, x))
 	case *ssa.TypeAssert:
-		fr.env[x] = m.typeAssert(fr, x)
+		fr.env.put(x, m.typeAssert(fr, x))
 	case *ssa.Range:
 		v := m.get(fr, x.X)
 		if mp, ok := v.(*Map); ok {
@@ -468,18 +517,18 @@ func (m *Machine) instr(fr *frame, in ssa.Instruction) {
 			if mp != nil {
 				it.order = m.ex.Permutation(len(mp.keys))
 			}
-			fr.env[x] = it
+			fr.env.put(x, it)
 		} else {
 			panic(&Inconclusive{"range over string unsupported"})
 		}
 	case *ssa.Next:
 		it := m.get(fr, x.Iter).(*MapIter)
 		if it.pos >= len(it.order) {
-			fr.env[x] = Tuple{Bool(false), zero(x.Type().(*types.Tuple).At(1).Type()), zero(x.Type().(*types.Tuple).At(2).Type())}
+			fr.env.put(x, Tuple{Bool(false), zero(x.Type().(*types.Tuple).At(1).Type()), zero(x.Type().(*types.Tuple).At(2).Type())})
 		} else {
 			i := it.order[it.pos]
 			it.pos++
-			fr.env[x] = Tuple{Bool(true), it.m.keys[i], it.m.vals[i]}
+			fr.env.put(x, Tuple{Bool(true), it.m.keys[i], it.m.vals[i]})
 		}
 	case *ssa.DebugRef:
 	default:
@@ -1433,9 +1482,9 @@ func (m *Machine) specRun(fr *frame, b *ssa.BasicBlock) (stores []pendingStore, 
 						v = ps.val
 					}
 				}
-				fr.env[x] = v
+				fr.env.put(x, v)
 			} else {
-				fr.env[x] = m.unop(fr, x)
+				fr.env.put(x, m.unop(fr, x))
 			}
 		default:
 			m.instr(fr, in)
@@ -1517,7 +1566,7 @@ func (m *Machine) tryIfConvert(fr *frame, b *ssa.BasicBlock, c *Term) bool {
 		*ps.addr = iteAny(Not(c), ps.val, old)
 	}
 	for i, p := range phis {
-		fr.env[p] = phiVals[i]
+		fr.env.put(p, phiVals[i])
 	}
 	// enter join past its phis
 	fr.prev = b
